@@ -67,6 +67,8 @@ func main() {
 		os.Exit(cmdCheck(os.Args[2:]))
 	case "keys":
 		os.Exit(cmdKeys(os.Args[2:]))
+	case "replay":
+		os.Exit(cmdReplay(os.Args[2:]))
 	}
 	fmt.Fprintln(os.Stderr, "unknown command")
 	os.Exit(2)
